@@ -188,7 +188,17 @@ func (g *Gen) oblig(kind, anchor, goal, desc string, pos token.Pos, contractual 
 	}
 	if g.fc != nil && g.fc.DataflowOnly != "" {
 		switch kind {
-		case "nil", "bounds", "div", "overflow", "frame", "assert-type", "panic", "pool-put":
+		case "overflow":
+			// signed overflow does not panic in Go, it wraps: nothing may be assumed about it. In `mode bv` the
+			// wrapped value is what the rest of the unit sees (this is how an index computed as start+limit with a
+			// huge limit is caught); in `mode int` arithmetic is mathematical, as everywhere in that mode.
+			return &Oblig{Unit: g.unit, Name: kind + ":" + anchor, Kind: kind}
+		case "bounds":
+			if g.fc.CheckBounds {
+				break // `dataflow-only check-bounds`: generated like in a fully verified unit
+			}
+			fallthrough
+		case "nil", "div", "frame", "assert-type", "panic", "pool-put":
 			// dataflow-only unit: safety of the unit itself is not claimed; the fact is assumed (executions that panic
 			// are not considered)
 			g.assume(g.curReach, goal)
